@@ -65,6 +65,23 @@ Definition roundtrip (c : cfg) (tracks : list (list msg)) : string :=
           end
       end
   end.
+(* the same from a state dictionary whose running values were left behind by earlier calls (possibly of another
+   tokeniser): clock at 0, default signature *)
+Definition roundtrip_from (c : cfg) (ptrk pval pvel : Z) (tracks : list (list msg)) : string :=
+  let st0 := mkts 0 0 DEFAULT_TS_NUM DEFAULT_TS_DEN (bar_cap c DEFAULT_TS_NUM DEFAULT_TS_DEN) ptrk pval pvel in
+  match tokenise c st0 tracks with
+  | Err e => "!" ++ show_err e
+  | Ok (ts, st) =>
+      show_toks ts ++ "#" ++ show_tstate st ++ "#" ++
+      match encode c ts with
+      | Err e => "!" ++ show_err e
+      | Ok ids => show_Zs ids ++ "#" ++
+          match decode c ids with
+          | Err e => "!" ++ show_err e
+          | Ok ts' => show_res show_msgss (detokenise c ts')
+          end
+      end
+  end.
 (* threaded calls: one token list per call and the state after each *)
 Fixpoint tokenise_calls (c : cfg) (st : tstate) (calls : list (list (list msg))) : string :=
   match calls with
